@@ -15,7 +15,7 @@ for log in sys.argv[1:]:
         body = "\n".join(rest)
         suite = re.search(r"(\d+) passed", body)
         exits = re.findall(r"exit=(\d+)", body)
-        checks = re.findall(r"^== check (C\d+).*?\n((?:(?:VIOLATION|KNOWN-FINDING).*\n)*)(C\d+ tier=.*)$", body, flags=re.M)
+        checks = re.findall(r"^== check (C\d+).*?\n((?:(?!C\d+ tier=)(?!== )(?!######## ).*\n)*)(C\d+ tier=.*)$", body, flags=re.M)
         concrete = [c for c, v, s in checks if re.search(r"replay=\S+-\d+\.json", v)]
         broken = [c for c, v, s in checks if "no-failing-input-found" in v and c not in concrete]
         detected = "yes" if concrete else ("broken-only" if broken else "no")
